@@ -3,7 +3,7 @@
 Oracle: executable connection model (set of validated flows; cookie learned from a probe SYN at the boundary)."""
 import time
 
-from .. import core, gen, pkt, findings
+from .. import core, gen, pkt, findings, sigref
 from ..driver import Config
 from ..pkt import SYN, ACK, PSH, FIN, RST, URG, ECE, CWR, NS
 
@@ -25,9 +25,11 @@ KNOWN_COLLISION = "cookie-collision"
 class Model:
     def __init__(self):
         self.validated = {}     # flow id -> cookie
+        self.stream = {}        # flow id -> first bytes of the accepted stream
 
     def reset(self):
         self.validated = {}
+        self.stream = {}
 
 
 def fid(e, sp, dp):
@@ -111,7 +113,7 @@ def script(ctx, cfg, model, cookies):
             word.append((i, "syn"))
             continue
         if act < 0.22:
-            fl = rng.choice([ACK, RST, FIN | ACK, FIN | ACK])
+            fl = rng.choice([ACK, RST, RST | ACK, FIN | ACK, FIN | ACK])
             q_ack = rng.choice([s["peer"], rng.getrandbits(32), 0] + ([(cookies[f_id] + 1) & 0xFFFFFFFF] * 2 if f_id in cookies else []))
             f = fe.tcp(fsp, fdp, s["seq"], q_ack, fl)
             r = ctx.send(f)
@@ -123,7 +125,7 @@ def script(ctx, cfg, model, cookies):
                 else:
                     check_reply_fields(pkt.parse(r.reply), 0, q, errs, fin=True)
             elif r.kind == "R":
-                errs.append("bare_%s_answered bare %s segment answered with %s" % ("ack" if fl == ACK else "rst", "ACK" if fl == ACK else "RST", pkt.summary(r.reply)))
+                errs.append("bare_%s_answered bare %s segment answered with %s" % ("ack" if fl == ACK else "rst", "ACK" if fl == ACK else ("RST" if fl == RST else "RST|ACK"), pkt.summary(r.reply)))
             for e_ in errs:
                 ctx.violation(e_.split(" ")[0], e_ + "; " + pkt.summary(f), observed=r.reply.hex() if r.reply else r.kind)
             if r.table != len(set(model.validated.values())):
@@ -173,6 +175,18 @@ def script(ctx, cfg, model, cookies):
                 a = pkt.parse(r.reply)
                 if "seq" in a:
                     s["peer"] = (a.seq + len(a.data)) & 0xFFFFFFFF
+                # "PSH iff it carries application data": application data is due only once the accepted stream of the
+                # flow has completed a signature (reference matcher; the compiled matcher is consulted before blaming
+                # the connection layer - where the two disagree the case belongs to C10)
+                strm = (model.stream.get(f_id, b"") + pl)[:96]
+                model.stream[f_id] = strm
+                if a.get("data") and sigref.identify(strm, False) == sigref.NOMATCH:
+                    real = ctx.__dict__.setdefault("_real", sigref.RealMatcher(ctx))
+                    if real.identify(strm, False) == sigref.NOMATCH:
+                        errs.append("app_data_unidentified the accepted stream of this flow (%s...) completes no protocol signature, yet the reply carries %d bytes of application data" % (
+                            strm[:32].hex(), len(a.data)))
+                    else:
+                        ctx.stats["matcher_divergence_skipped"] += 1
             model.validated[f_id] = ck if known else None
         else:
             rej += 1
